@@ -29,6 +29,24 @@ def main():
         s = re.sub(r'<!-- GEN:wiring -->.*?<!-- /GEN:wiring -->', lambda m: new, s, flags=re.S)
     else:
         s = re.sub(r'\| property \| Verus batches \| Kani, quick tier \|.*?\n\n', lambda m: new + '\n\n', s, count=1, flags=re.S)
+    # totals per property from the evidence files written by the last run of each check
+    import glob
+    import json
+    trows = ['| property | tier | obligations discharged / generated | by engine | bounded harnesses (ok) | assumed clauses | functions under contract | known findings reported | wall s |',
+             '|---|---|---|---|---|---|---|---|---|']
+    tot_ob = tot_fn = 0
+    for f in sorted(glob.glob(os.path.join(ROOT, 'evidence', 'C*.json'))):
+        e = json.load(open(f))
+        c = e['coverage']
+        be = ', '.join(f'{k} {v}' for k, v in sorted((c.get('obligations_by_engine') or {}).items()))
+        b = c.get('bounded') or []
+        trows.append(f"| {e['property_id']} | {e['tier']} | {c['discharged']} / {c['obligations']} | {be} | {len(b)} ({len([x for x in b if x.get('ok')])}) | "
+                     f"{len(c.get('assumed_clauses') or [])} | {len(c.get('functions_under_contract') or [])} | {len(c.get('known_findings_reported') or [])} | {e['wall_s']:.0f} |")
+        tot_ob += c['obligations']
+        tot_fn += len(c.get('functions_under_contract') or [])
+    new = '<!-- GEN:totals -->\n' + '\n'.join(trows) + f'\n\n(sums over properties count shared functions once per property: {tot_ob} obligations, {tot_fn} function entries)\n<!-- /GEN:totals -->'
+    if '<!-- GEN:totals -->' in s:
+        s = re.sub(r'<!-- GEN:totals -->.*?<!-- /GEN:totals -->', lambda m: new, s, flags=re.S)
     open(path, 'w').write(s)
 
 
